@@ -53,11 +53,35 @@ func parseItem(s string) item {
 	v, _ := strconv.ParseUint(s[2:], 10, 64)
 	return item{wide: s[0] == 'l', v: v}
 }
+// refHashLong is the harness's own statement of the hash the counter is specified with:
+// MurmurHash2 (stream-lib `MurmurHash.hashLong`): two 32-bit rounds, the low word then the high
+// word of the item, each `k *= m; k ^= k >>> 24; k *= m`, combined as `h = (h*m) ^ k`, followed by
+// the final avalanche.  Written independently of util/hll/MurmurHash.go; the model is always fed
+// with these values, never with the library's.
+func refHashLong(data uint64) uint32 {
+	const m = uint32(0x5bd1e995)
+	mix := func(k uint32) uint32 {
+		k *= m
+		k ^= k >> 24
+		k *= m
+		return k
+	}
+	h := uint32(0)
+	h ^= mix(uint32(data)) // low word (h starts at 0)
+	h *= m
+	h ^= mix(uint32(data >> 32)) // high word
+	h ^= h >> 13
+	h *= m
+	h ^= h >> 15
+	return h
+}
+
+// a 32-bit item is hashed as the 64-bit value with a zero high word
 func hashOf(it item) uint32 {
 	if it.wide {
-		return hll.MurmurHashLong(it.v)
+		return refHashLong(it.v)
 	}
-	return hll.MurmurHash(uint32(it.v))
+	return refHashLong(uint64(uint32(it.v)))
 }
 func offer(h *hll.HyperLogLog, it item) bool {
 	if it.wide {
@@ -85,8 +109,7 @@ func inv32(a uint32) uint32 { // modular inverse of an odd number mod 2^32
 	return x
 }
 
-// unmurmur returns o with hll.MurmurHash(o) == h (valid for the MurmurHashLong of the repo;
-// validated at start-up against the real function).
+// unmurmur returns the 32-bit item o whose (reference) hash is h; validated at start-up.
 func unmurmur(h uint32) uint32 {
 	mi := inv32(murM)
 	h ^= h >> 15
@@ -339,14 +362,14 @@ func main() {
 		if i < 8 {
 			h = []uint32{0, 1, 0xffffffff, 0x80000000, 0x7fffffff, 0x0fffffff, 0x10000000, 0xf0000000}[i]
 		}
-		if hll.MurmurHash(unmurmur(h)) != h {
+		if refHashLong(uint64(unmurmur(h))) != h {
 			invOK = false
 		}
 	}
 	if !invOK {
-		rep.Note("MurmurHash(uint32) is no longer the function the harness can invert; chosen-hash cases are skipped (hash identity is C15's subject)")
+		rep.Note("harness bug: the inverse of the reference hash is wrong; chosen-hash cases are skipped")
 	}
-	crafted := func(h uint32) item { return item{false, uint64(unmurmur(h))} }
+	invOKg = invOK
 
 	// ---- replay mode: only the cases of the replay file
 	var cases []*caseT
@@ -378,7 +401,7 @@ func main() {
 		// ---- 1. word level and RegisterSet level
 		registerSetSection(env, rep, rng, add)
 		// ---- 2. generated cases
-		cases = genCases(env, rng, invOK, crafted)
+		cases = genCases(env, rng, invOK)
 	}
 
 	// ---- 3. every case on the implementation (16 workers), lines for the model
@@ -423,9 +446,9 @@ func main() {
 	// ---- 4. sampled error bound + search for D30 (implementation only)
 	if env.Replay == "" {
 		sampleEstimates(env, rep, rng, fail)
-		d30Witness(rep, invOK, crafted, fail)
+		d30Witness(rep, invOK, fail)
 		if invOK {
-			linearSweep(env, rep, crafted, add, fail)
+			linearSweep(env, rep, add, fail)
 		}
 	}
 
@@ -478,6 +501,10 @@ func main() {
 	rep.Write(env.Out)
 }
 
+var invOKg bool
+
+func crafted(h uint32) item { return item{false, uint64(unmurmur(h))} }
+
 func scramble(x uint64) uint64 {
 	x ^= 0xC14C14C14C14C14
 	x = (x ^ (x >> 33)) * 0xff51afd7ed558ccd
@@ -521,26 +548,85 @@ func runDriverPar(driver string, lines []string, k int) ([]string, error) {
 	return res, nil
 }
 
-// ---------------------------------------------------------------- case generation
+// ---------------------------------------------------------------- item families
 
-func genCases(env *vh.Env, rng *vh.Rng, invOK bool, crafted func(uint32) item) []*caseT {
-	var cases []*caseT
-	reps := 2
-	if env.Thorough {
-		reps = 6
-	}
-	randItem := func(r *vh.Rng, mode string) item {
-		switch mode {
-		case "int32":
-			return item{false, uint64(uint32(r.U64()))}
-		case "int64":
-			return item{true, r.U64()}
-		case "small": // small consecutive-ish integers, the way ids look
-			if r.Bool() {
-				return item{false, uint64(r.Intn(1 << 20))}
+// Every family is a way items look in use; the i-th item of a sequence is gen(i).  Families that
+// vary only part of a 64-bit item are there because a hash that ignores (or mistreats) that part
+// still looks fine on uniformly random items.
+var familyNames = []string{"int32", "int64", "mixed", "small", "seq", "neg64", "hi-only", "lo-only", "sign-pairs"}
+
+func newFamily(name string, r *vh.Rng) func(i int) item {
+	switch name {
+	case "int32":
+		return func(int) item { return item{false, uint64(uint32(r.U64()))} }
+	case "int64":
+		return func(int) item { return item{true, r.U64()} }
+	case "small": // small integers, the way ids look, through both entry points
+		return func(int) item { return item{r.Bool(), uint64(r.Intn(1 << 22))} }
+	case "seq": // consecutive ids from a base
+		wide := r.Bool()
+		base := uint64(r.Intn(1 << 16))
+		if wide && r.Bool() {
+			base = r.U64() >> uint(r.Intn(40))
+		}
+		return func(i int) item {
+			if wide {
+				return item{true, base + uint64(i)}
 			}
-			return item{true, uint64(r.Intn(1 << 20))}
-		default: // mixed
+			return item{false, uint64(uint32(base) + uint32(i))}
+		}
+	case "neg64": // negative int64 ids: -1, -2, … and arbitrary values with the sign bit set
+		return func(int) item {
+			if r.Bool() {
+				return item{true, uint64(-int64(1 + r.Intn(1<<22)))}
+			}
+			return item{true, r.U64() | 1<<63}
+		}
+	case "hi-only": // one low word, the items differ only in the upper 32 bits
+		lo := uint64(uint32(r.U64()))
+		if r.Chance(30) {
+			lo = uint64(r.Intn(3))
+		}
+		seq := r.Bool()
+		base := uint32(r.U64())
+		if r.Bool() {
+			base |= 1 << 31 // … with the sign bit set
+		}
+		return func(i int) item {
+			hi := uint32(r.U64())
+			if seq {
+				hi = base + uint32(i)
+			}
+			return item{true, uint64(hi)<<32 | lo}
+		}
+	case "lo-only": // one (non-zero) upper word, the items differ only in the lower 32 bits
+		hi := uint64(uint32(r.U64()) | 1)
+		if r.Bool() {
+			hi |= 1 << 31
+		}
+		seq := r.Bool()
+		base := uint32(r.U64())
+		return func(i int) item {
+			lo := uint32(r.U64())
+			if seq {
+				lo = base + uint32(i)
+			}
+			return item{true, hi<<32 | uint64(lo)}
+		}
+	case "sign-pairs": // x and x with the sign bit flipped
+		var prev uint64
+		return func(i int) item {
+			if i%2 == 1 {
+				return item{true, prev ^ 1<<63}
+			}
+			prev = r.U64()
+			if r.Chance(30) {
+				prev = uint64(r.Intn(1 << 20))
+			}
+			return item{true, prev}
+		}
+	default: // mixed
+		return func(int) item {
 			if r.Bool() {
 				return item{false, uint64(uint32(r.U64()))}
 			}
@@ -550,7 +636,34 @@ func genCases(env *vh.Env, rng *vh.Rng, invOK bool, crafted func(uint32) item) [
 			return item{true, r.U64()}
 		}
 	}
-	modes := []string{"int32", "int64", "mixed", "small"}
+}
+
+// bump offers items until one changes the counter (a maximal-rank item in a random register
+// first, then random items); false if nothing changed it.
+func bump(h *hll.HyperLogLog, p uint32, r *vh.Rng) bool {
+	for t := 0; t < 64; t++ {
+		var it item
+		if invOKg && t%2 == 0 {
+			it = crafted(uint32(r.Intn(1<<p)) << (32 - p))
+		} else {
+			it = item{true, r.U64()}
+		}
+		if offer(h, it) {
+			return true
+		}
+	}
+	return false
+}
+
+// ---------------------------------------------------------------- case generation
+
+func genCases(env *vh.Env, rng *vh.Rng, invOK bool) []*caseT {
+	var cases []*caseT
+	reps := 2
+	if env.Thorough {
+		reps = 6
+	}
+	modes := familyNames
 	for p := uint32(4); p <= 16; p++ {
 		m := 1 << p
 		sizes := []int{0, 1, 2, 3, 5, 17, m / 4, m / 2, m - 1, m, m + 1, 2 * m, 5 * m / 2, 3 * m, 5 * m, 8 * m}
@@ -564,8 +677,9 @@ func genCases(env *vh.Env, rng *vh.Rng, invOK bool, crafted func(uint32) item) [
 				}
 				mode := modes[(si+rp+int(p))%len(modes)]
 				c := &caseT{p: p, mode: mode}
+				gen := newFamily(mode, rng)
 				for i := 0; i < n; i++ {
-					c.items = append(c.items, randItem(rng, mode))
+					c.items = append(c.items, gen(i))
 				}
 				cases = append(cases, c)
 			}
@@ -573,8 +687,9 @@ func genCases(env *vh.Env, rng *vh.Rng, invOK bool, crafted func(uint32) item) [
 			for k := 0; k < 6; k++ {
 				n := 1 + rng.Intn(12)
 				c := &caseT{p: p, mode: "tiny"}
+				gen := newFamily(familyNames[rng.Intn(len(familyNames))], rng)
 				for i := 0; i < n; i++ {
-					c.items = append(c.items, randItem(rng, "mixed"))
+					c.items = append(c.items, gen(i))
 				}
 				cases = append(cases, c)
 			}
@@ -841,6 +956,64 @@ func checkCase(c *caseT, r *vh.Rng, add func(pending), fail func(kind, key, summ
 				}
 			})
 		}
+		// no aliasing in either direction: r := h.Merge(), h.Merge(a), h.Merge(a, b, c); mutate the
+		// result → every input keeps its bytes; mutate an input → the result keeps its bytes
+		if o.OK() && len(total) <= 40000 {
+			for _, arity := range []int{0, 1, 3} {
+				if arity > k-1 {
+					arity = k - 1
+				}
+				ins := make([]*hll.HyperLogLog, arity+1)
+				for j := range ins {
+					ins[j] = build(p, parts[j]).h
+				}
+				var res *hll.HyperLogLog
+				bad := ""
+				og := vh.Guard(func() {
+					res = ins[0].Merge(ins[1:]...)
+					snap := make([][]byte, len(ins))
+					for j := range ins {
+						snap[j] = ins[j].GetBytes()
+					}
+					if bump(res, p, r) {
+						for j := range ins {
+							if !bytes.Equal(ins[j].GetBytes(), snap[j]) {
+								bad = fmt.Sprintf("offering to the result of Merge with %d argument(s) changed input #%d", arity, j)
+								return
+							}
+						}
+					}
+					// AddAll into the result
+					extra := hll.NewHyperLogLogInt(p)
+					bump(extra, p, r)
+					res.AddAll(extra)
+					for j := range ins {
+						if !bytes.Equal(ins[j].GetBytes(), snap[j]) {
+							bad = fmt.Sprintf("AddAll into the result of Merge with %d argument(s) changed input #%d", arity, j)
+							return
+						}
+					}
+					rs := res.GetBytes()
+					for j := range ins {
+						if bump(ins[j], p, r) && !bytes.Equal(res.GetBytes(), rs) {
+							bad = fmt.Sprintf("offering to input #%d changed the result of an earlier Merge with %d argument(s)", j, arity)
+							return
+						}
+					}
+				})
+				if !og.OK() {
+					fail("property", "merge:panic", "Merge/offer history panicked: "+vh.Clip(og.Panic, 200), rp())
+				} else if bad != "" {
+					m := rp()
+					m["history"] = bad
+					m["merge_arguments"] = arity
+					fail("property", "merge:result-aliases-input", bad, m)
+				}
+				if arity == k-1 {
+					break
+				}
+			}
+		}
 		// model of the merge (only for moderate sizes: the single-counter line already ties the state)
 		if len(total) <= 70000 {
 			ls := make([]string, k)
@@ -883,6 +1056,40 @@ func checkCase(c *caseT, r *vh.Rng, add func(pending), fail func(kind, key, summ
 			fail("property", "rebuild:bytes-differ", "BuildHyperLogLog(GetBytes()).GetBytes() differs", replayOf(c, nil))
 		case rcard != base.card:
 			fail("property", "rebuild:estimate-differs", "the rebuilt counter's estimate differs", replayOf(c, nil))
+		}
+		// the rebuilt counter, the original and the byte slice are independent of each other
+		if len(c.items) <= 40000 {
+			bad := ""
+			og := vh.Guard(func() {
+				h1 := build(p, c.items).h
+				b1 := h1.GetBytes()
+				keep := append([]byte(nil), b1...)
+				h2 := hll.BuildHyperLogLog(b1)
+				if h2 == nil {
+					return
+				}
+				if bump(h2, p, r) && (!bytes.Equal(h1.GetBytes(), keep) || !bytes.Equal(b1, keep)) {
+					bad = "offering to the rebuilt counter changed the original counter or the serialized bytes"
+					return
+				}
+				s2 := h2.GetBytes()
+				if bump(h1, p, r) && (!bytes.Equal(h2.GetBytes(), s2) || !bytes.Equal(b1, keep)) {
+					bad = "offering to the original counter changed the rebuilt counter or the serialized bytes"
+					return
+				}
+				s1 := h1.GetBytes()
+				for i := range b1 {
+					b1[i] ^= 0xff
+				}
+				if !bytes.Equal(h2.GetBytes(), s2) || !bytes.Equal(h1.GetBytes(), s1) {
+					bad = "overwriting the serialized bytes changed a counter"
+				}
+			})
+			if !og.OK() {
+				fail("property", "rebuild:fails", "rebuild/offer history panicked: "+vh.Clip(og.Panic, 200), replayOf(c, nil))
+			} else if bad != "" {
+				fail("property", "rebuild:aliases-original", bad, replayOf(c, map[string]interface{}{"history": bad}))
+			}
 		}
 		if len(c.items) <= 70000 {
 			add(pending{line: "BLD " + vh.Hex(base.bytes), want: fmt.Sprintf("ok %d %s %d", p, vh.Hex(rb), rcard), c: c, what: "BLD"})
@@ -985,8 +1192,8 @@ func classify(rep *vh.Report, pe pending, got string) {
 				for _, it := range pe.c.items {
 					dh[hashOf(it)] = struct{}{}
 				}
-				crafted := strings.HasPrefix(pe.c.mode, "ranks") || pe.c.mode == "extremes" || pe.c.mode == "all-registers-rank1"
-				if !crafted && !withinBound(pe.c.p, len(dh), n) {
+				chosen := strings.HasPrefix(pe.c.mode, "ranks") || pe.c.mode == "extremes" || pe.c.mode == "all-registers-rank1"
+				if !chosen && !withinBound(pe.c.p, len(dh), n) {
 					rep.Fail("property", "estimate:outside-error-bound", "Cardinality() differs from the model and is outside the error bound",
 						replayOf(pe.c, map[string]interface{}{"implementation": w[2], "model": g[2], "branch": g[3], "zeros": g[4], "regSum": g[5]}))
 					return
@@ -1188,6 +1395,7 @@ func sampleEstimates(env *vh.Env, rep *vh.Report, rng *vh.Rng, fail func(kind, k
 		tinyOff int
 	}
 	stats := make([]stat, 17)
+	famStats := map[string]*stat{}
 	var mu sync.Mutex
 	var wg sync.WaitGroup
 	sem := make(chan struct{}, 16)
@@ -1196,12 +1404,13 @@ func sampleEstimates(env *vh.Env, rep *vh.Report, rng *vh.Rng, fail func(kind, k
 			r := rng.Fork()
 			wg.Add(1)
 			sem <- struct{}{}
+			fam := familyNames[s%len(familyNames)]
 			go func(p uint32, r *vh.Rng) {
 				defer wg.Done()
 				defer func() { <-sem }()
 				m := 1 << p
 				sigma := 1.04 / math.Sqrt(float64(m))
-				wide := r.Bool()
+				gen := newFamily(fam, r)
 				h := hll.NewHyperLogLogInt(p)
 				seen := map[uint32]struct{}{} // distinct *hashes* (a 64-bit item may collide with another in the 32-bit hash)
 				var items []item
@@ -1211,13 +1420,15 @@ func sampleEstimates(env *vh.Env, rep *vh.Report, rng *vh.Rng, fail func(kind, k
 					every = m / 16
 				}
 				var st stat
+				drawn, dups := 0, 0
 				for len(seen) < maxN {
-					it := item{wide, r.U64()}
-					if !wide {
-						it.v = uint64(uint32(it.v))
-					}
+					it := gen(drawn)
+					drawn++
 					hv := hashOf(it)
 					if _, dup := seen[hv]; dup {
+						if dups++; dups > 4*maxN+1000 {
+							break // the family cannot supply more distinct items
+						}
 						continue
 					}
 					seen[hv] = struct{}{}
@@ -1241,7 +1452,7 @@ func sampleEstimates(env *vh.Env, rep *vh.Report, rng *vh.Rng, fail func(kind, k
 							key = keyD30
 							st.d30++
 						}
-						c := &caseT{p: p, items: items, mode: "sampled"}
+						c := &caseT{p: p, items: items, mode: "sampled:" + fam}
 						fail("property", key, fmt.Sprintf("Cardinality() = %d for %d distinct items at precision %d", est, n, p), replayOf(c, nil))
 						if key != keyD30 {
 							break
@@ -1255,6 +1466,15 @@ func sampleEstimates(env *vh.Env, rep *vh.Report, rng *vh.Rng, fail func(kind, k
 				}
 				s0.samples += st.samples
 				s0.d30 += st.d30
+				f0 := famStats[fam]
+				if f0 == nil {
+					f0 = &stat{}
+					famStats[fam] = f0
+				}
+				f0.samples += st.samples
+				if st.worst > f0.worst {
+					f0.worst, f0.worstN = st.worst, int(p)
+				}
 				mu.Unlock()
 			}(p, r)
 		}
@@ -1269,13 +1489,19 @@ func sampleEstimates(env *vh.Env, rep *vh.Report, rng *vh.Rng, fail func(kind, k
 		total += stats[p].samples
 		rep.CountN(fmt.Sprintf("sampled-estimates:p=%02d", p), stats[p].samples)
 	}
+	ftab := map[string]interface{}{}
+	for f, st := range famStats {
+		ftab[f] = map[string]interface{}{"samples": st.samples, "worst_abs_error_in_sigmas": math.Round(st.worst*100) / 100, "at_precision": st.worstN}
+		rep.CountN("sampled-estimates:family="+f, st.samples)
+	}
 	rep.Evaluations += total
 	rep.Extra["sampled_error_bound"] = tab
+	rep.Extra["sampled_error_bound_by_family"] = ftab
 	rep.Note("sampled error bound (exploration, not a theorem): %d estimates over %d seeds per precision, tolerance (%.0f·1.04/sqrt(m) + %.2f)·n + %.0f (%.0f sigma for p ≤ 6; the %.2f covers the known bias of the uncorrected estimator between 2.5·m and 5·m)", total, seeds, tolSigma, biasAllow, tolAbs, tolSigmaSmallP, biasAllow)
 }
 
 // the deterministic exhibits of D30 (also proved about the model: C14.finding_D30)
-func d30Witness(rep *vh.Report, invOK bool, crafted func(uint32) item, fail func(kind, key, summary string, replay interface{})) {
+func d30Witness(rep *vh.Report, invOK bool, fail func(kind, key, summary string, replay interface{})) {
 	var cs []*caseT
 	if invOK {
 		c := &caseT{p: 4, mode: "D30-witness"}
@@ -1312,7 +1538,7 @@ func d30Witness(rep *vh.Report, invOK bool, crafted func(uint32) item, fail func
 // (registers filled one by one with rank 1: the raw estimate stays ≤ 1.45·m, so the small-range
 // branch with V ≠ 0 is taken) and compares Cardinality() with m·ln(m/V) evaluated independently
 // in Go and by the model.
-func linearSweep(env *vh.Env, rep *vh.Report, crafted func(uint32) item, add func(pending), fail func(kind, key, summary string, replay interface{})) {
+func linearSweep(env *vh.Env, rep *vh.Report, add func(pending), fail func(kind, key, summary string, replay interface{})) {
 	var wg sync.WaitGroup
 	var mu sync.Mutex
 	total := 0
